@@ -1,8 +1,8 @@
-import sys, facts, mirlite
+import os, sys, facts, mirlite
 out, idx = facts.build()
 crate = sys.argv[1]; pat = sys.argv[2]
 d = facts.load(out, idx, crate)
-c = mirlite.Crate(d)
+c = mirlite.Crate(d, lower=bool(os.environ.get("ZVT_LOWER")))
 for b in c.bodies.values():
     if pat in b.id:
         print(mirlite.dump_body(b.raw)); print()
